@@ -6201,6 +6201,8 @@ void Tokenizer::dump(std::ostream &out) const
     std::string outs;
 
     std::set<const Library::Container*> containers;
+    // dump order must not depend on pointer values: remember the order of first insertion
+    std::vector<const Library::Container*> containersInOrder;
 
     outs += "  <directivelist>";
     outs += '\n';
@@ -6393,7 +6395,8 @@ void Tokenizer::dump(std::ostream &out) const
                 outs += ' ';
                 outs += vt;
             }
-            containers.insert(tok->valueType()->container);
+            if (tok->valueType()->container && containers.insert(tok->valueType()->container).second)
+                containersInOrder.push_back(tok->valueType()->container);
         }
         if (!tok->varId() && tok->scope()->isExecutable() && Token::Match(tok, "%name% (")) {
             if (mSettings.library.isnoreturn(tok))
@@ -6416,7 +6419,7 @@ void Tokenizer::dump(std::ostream &out) const
     if (!containers.empty()) {
         outs += "  <containers>";
         outs += '\n';
-        for (const Library::Container* c: containers) {
+        for (const Library::Container* c: containersInOrder) {
             outs += "    <container id=\"";
             outs += id_string(c);
             outs += "\" array-like-index-op=\"";
